@@ -17,7 +17,7 @@ def fmt(xs):
 def check(path):
     n = 0
     bad = []
-    kinds = {"S": 0, "V": 0, "I": 0, "P": 0}
+    kinds = {"S": 0, "V": 0, "I": 0, "P": 0, "R": 0}
     with open(path) as f:
         for line in f:
             line = line.rstrip("\n")
@@ -35,6 +35,16 @@ def check(path):
                     want = fmt(list(range(ln))[a:b:c])
                 if got != want and len(bad) < 50:
                     bad.append({"signature": "C07/slice-differs-from-python", "witness": {"kind": parts[0], "len": ln, "start": a, "stop": b, "step": c, "python": want, "got": got}})
+            elif parts[0] == "R":
+                form, ln, k = parts[1], int(parts[2]), int(parts[3])
+                rows = [[v + 10 * j for v in range((j * 5 + ln) % 7)] for j in range(ln % 9 + 1)]
+                picks = [(r[k] if -len(r) <= k < len(r) else None) for r in rows]
+                if form == "ragged-map":
+                    want = "[" + ",".join("null" if x is None else str(x) for x in picks) + "]"
+                else:
+                    want = fmt([x for x in picks if x is not None])
+                if got != want and len(bad) < 50:
+                    bad.append({"signature": "C07/index-over-ragged-rows-differs-from-python", "witness": {"form": form, "len": ln, "index": k, "python": want, "got": got}})
             elif parts[0] == "P":
                 form, ln, a, b, c = parts[1], int(parts[2]), p(parts[3]), p(parts[4]), p(parts[5])
                 sel = list(range(ln))[a:b:c]
@@ -67,7 +77,7 @@ def check(path):
 if __name__ == "__main__":
     total = 0
     allbad = []
-    kinds = {"S": 0, "V": 0, "I": 0, "P": 0}
+    kinds = {"S": 0, "V": 0, "I": 0, "P": 0, "R": 0}
     for path in sys.argv[1:]:
         n, k, bad = check(path)
         total += n
